@@ -230,6 +230,21 @@ def _check_routine(ctx, rep, f: Func, level: str):
             hist = {const(k): unparse(v) for k, v in zip(n.keys, n.values)}
     rep.check(apps == want and hist == {"p": "ps", "q": "qs", "x": "xs", "y": "ys", "error_value": "error_values"}, "K4", f, "history",
               "ps/qs/xs/ys receive p', q', x', y'", "history lists receive %s; dict is %s" % (apps, hist), node=loop)
+    # the sweep that ends the loop is recorded too: the history appends precede every exit of the iteration
+    def top_index(node):
+        for i, st in enumerate(loop.body):
+            if any(node is x for x in ast.walk(st)):
+                return i
+        return None
+    app_idx = [top_index(n) for n in ast.walk(loop) if isinstance(n, ast.Call) and isinstance(n.func, ast.Attribute) and n.func.attr == "append"
+               and unparse(n.func.value) in want]
+    brk_idx = [top_index(n) for n in ast.walk(loop) if isinstance(n, ast.Break)]
+    if app_idx and brk_idx and None not in app_idx and None not in brk_idx:
+        rep.check(max(app_idx) < min(brk_idx), "K4", f, "history of the last sweep", "the iterates of the stopping sweep are appended before the loop is left",
+                  "the loop is left (break) before the history lists are extended: the sweep that satisfies the stopping test is never recorded, so "
+                  "history['x'][-1] is not the returned point", node=loop)
+    else:
+        rep.undecided("K4", f, "history of the last sweep", "history appends / loop exit not found at the top level of the loop body")
 
 
 def _check_stop_helpers(ctx, rep):
